@@ -21,7 +21,7 @@ from tlslite import messages as M
 from tlslite.errors import TLSIllegalParameterException, TLSDecryptionFailed
 from specs import iana
 
-OPTS = {'ground_feasible': True, 'list_concat': True}
+OPTS = {'ground_feasible': True, 'list_concat': True, 'comprehension_facts': True}
 PROPS = ('C03', 'C04', 'C05', 'C06', 'C13', 'C20')
 
 Val, I, B = smt.Val, smt.I, smt.B
@@ -67,13 +67,60 @@ import os
 _FLIP = os.environ.get('M2C_FLIP')          # non-vacuity check: negate the goals whose name starts with this
 
 
+_ACTIVE = [None]      # predicate over obligation names: which obligations the running task poses
+
+
 def OB(ex, st, name, goal):
     """pose an m2 obligation (ex: executor or M2API)"""
+    if _ACTIVE[0] is not None and not _ACTIVE[0](name):
+        return
     if isinstance(goal, bool):
         goal = z3.BoolVal(goal)
     if _FLIP and (_FLIP == '*' or name.startswith(_FLIP)):
         goal = z3.Not(goal)
-    getattr(ex, 'ex', ex).oblige(st, name, goal)
+    getattr(ex, 'ex', ex).oblige(st, name, goal, kind='m2')
+
+
+INT_GHOSTS = ('hh_msgs', 'hs', 'n_sent', 'n_getmsg', 'n_ccs', 'n_getfin', 'n_sendfin', 'order')
+
+
+def _setup(ex, st, fr):
+    """integer ghosts exist from the start (a ghost missing on one side of a merge would default to False)"""
+    for g in INT_GHOSTS:
+        st.ghost[g] = VInt(z3.IntVal(0))
+
+
+def task_pair(name, props, qual, spec, check, setup, doc, defects=(), defect_props=(), defect_doc='', opts=None):
+    """Registers `name` with every obligation EXCEPT those whose name starts with one of `defects`, and
+    `<function>/known-defects` with exactly those: obligations that are refuted on the pinned tree because of a
+    defect that was reproduced on the real code (specs/client_hs.py).  They are kept apart so that the first task can
+    be baselined as fully discharged and the second is matched against known_findings.json."""
+    defects = tuple(defects)
+
+    def mk(pred):
+        def f(ex, st, fr):
+            _ACTIVE[0] = pred
+            setup(ex, st, fr)
+        return f
+    m2task(name, props, qual, spec, check=check, opts=opts, doc=doc,
+           setup=mk(lambda n: not any(n.startswith(d) for d in defects)))
+    if defects:
+        def check2(api):
+            check(api)
+            if not api.ex.obligations:
+                raise RuntimeError('no defect obligation posed for %s' % name)
+        m2task(name.split('/')[0] + '/known-defects', defect_props, qual, spec, check=check2, opts=opts, doc=defect_doc,
+               setup=mk(lambda n: any(n.startswith(d) for d in defects)))
+
+
+def _setup_fields(*fields):
+    """_setup + the named fields of `self` materialised at entry (a field first read inside one branch would be
+    dropped at the join)"""
+    def f(ex, st, fr):
+        _setup(ex, st, fr)
+        for n in fields:
+            st.heap[(st.env['self'].oid, n)] = fresh_opaque('fld_' + n)
+    return f
 
 
 def concat_lemmas(x, term):
@@ -202,12 +249,49 @@ def _h_wire_mutation(ex, recv, args, kwargs, st, fr, node):
     return None
 
 
+PURE_VALID = z3.Function('pure_valid_1', Val, Val)
+
+
+def _is_empty_bytes(v):
+    """bytearray(0) / bytearray() as the executor builds them"""
+    t = getattr(v, 't', None)
+    if t is None or not z3.is_app(t):
+        return False
+    if t.eq(smt.s_empty):
+        return True
+    return t.decl().name() == 's_rep' and z3.is_int_value(z3.simplify(t.arg(1))) and z3.simplify(t.arg(1)).as_long() == 0
+
+
 def _h_create_ch(ex, recv, args, kwargs, st, fr, node):
     """ClientHello.create(version, random, session_id, cipher_suites, certificate_types, srpUsername, tack,
     supports_npn, serverName, extensions=...)"""
+    rname = str(recv.t) if isinstance(recv, VOpaque) else ''
+    session = st.env['session']
+    if rname.startswith('new_SessionTicketExtension') and len(args) == 1:
+        # C13: "has not expired" -- the <=1.2 ticket put into the ClientHello survived the expiry pruning
+        if isinstance(args[0], VOpaque):
+            t = st.env.get('cached_ticket')
+            OB(ex, st, 'ch:offered-1.2-ticket-is-an-element-of-the-pruned-list-that-passed-Ticket.valid()',
+               FALSE if t is None else z3.And(tv(args[0]) == attr('ticket', t), v_truthy(PURE_VALID(attr('valid', t))),
+                                              V_IN(tv(t), attr('tls_1_0_tickets', session)), T_(session)))
+        else:
+            OB(ex, st, 'ch:otherwise-an-empty-SessionTicket-extension@L%d' % node.lineno,
+               _is_empty_bytes(args[0]))
+        return None
+    if rname.startswith('new_PskIdentity') and len(args) == 2:
+        if isinstance(args[1], VInt) and args[1].concrete() == 0:
+            return None                                  # external PSK from settings.pskConfigs
+        t, now = st.env.get('ticket'), st.env.get('now')
+        week = to_val(VInt(7 * 24 * 60 * 60))
+        OB(ex, st, 'ch:offered-1.3-ticket-is-unexpired(time+lifetime>now)-and-younger-than-7-days(RFC8446-4.6.1)',
+           FALSE if t is None or now is None else
+           z3.And(tv(args[0]) == attr('ticket', t), T_(session),
+                  V_GT(V_ADD(attr('time', t), attr('ticket_lifetime', t)), tv(now)),
+                  V_GT(V_ADD(attr('time', t), week), tv(now))))
+        return None
     if len(args) < 9:
         return None
-    settings, session = st.env['settings'], st.env['session']
+    settings = st.env['settings']
     wl = st.ghost.get('wire_list')
     src = st.ghost.get('wire_src')
     send_fb = T_(attr('sendFallbackSCSV', settings))
@@ -255,7 +339,11 @@ def _h_sendMsg_ch(ex, recv, args, kwargs, st, fr, node):
 SPEC_CH = M2Spec(hooks={'_sendError': h_sendError, 'list': _h_list, 'append': _h_append_ch, 'create': _h_create_ch,
                         'remove': _h_wire_mutation, 'pop': _h_wire_mutation, 'clear': _h_wire_mutation,
                         '_sendMsg': _h_sendMsg_ch},
-                 pure={'getattr', 'getCertificateTypes'})
+                 pure={'getattr', 'getCertificateTypes', 'valid'})
+
+REG.note('C13', 'trusted',
+         'm2_client: Ticket.valid() is treated as a function of the ticket (its clock read happens at pruning time: '
+         '"valid when pruned"); the element facts of comprehensions come from pyvc/m2.py `comprehension_facts`')
 
 
 def _check_ch(api):
@@ -269,8 +357,1382 @@ def _check_ch(api):
                    FALSE if y is None else tv(y) == tv(o.st.env['clientHello']))
 
 
-m2task('_clientSendClientHello/offer', ('C04', 'C13', 'C03'), TC + '_clientSendClientHello', SPEC_CH, check=_check_ch,
-       opts=OPTS,
+task_pair('_clientSendClientHello/offer', ('C04', 'C13', 'C03'), TC + '_clientSendClientHello', SPEC_CH, check=_check_ch,
+       opts=OPTS, setup=_setup,
        doc='every ClientHello().create(...) call gets the wire list: a copy of the offer (headed by the renegotiation '
            'SCSV) to which TLS_FALLBACK_SCSV was appended iff settings.sendFallbackSCSV; a cached session id is '
            'offered only together with the cached suite / names')
+
+
+# =========================================================================================================
+# 2. _clientGetServerHello  (C03 / C04 / C20: the ServerHello is inside the offer and the policy)
+from pyvc.executor import lift_py
+from tlslite.constants import TLS_1_3_HRR, TLS_1_2_DOWNGRADE_SENTINEL, TLS_1_1_DOWNGRADE_SENTINEL
+
+OPTS2 = dict(OPTS, pure_slice=True)
+HRR_RANDOM = to_val(lift_py(TLS_1_3_HRR))
+PURE_GETEXT = z3.Function('pure_getExtension_2', Val, Val, Val)
+
+
+def getext(obj, ext_type):
+    """term of obj.getExtension(ext_type) (getExtension is a pure scan of obj.extensions: assumed, see note)"""
+    return PURE_GETEXT(attr('getExtension', obj), to_val(VInt(ext_type)))
+
+
+REG.note('C03', 'trusted',
+         'm2_client: TLSExtension lookups `msg.getExtension(type)` are pure functions of (message, type) for the '
+         'received ServerHello/HelloRetryRequest (never mutated by the client code) and for ClientHello extension '
+         'types the HRR handling does not touch (alpn, supported_versions, supported_groups)')
+
+
+def _h_getMsg_sh(ex, recv, args, kwargs, st, fr, node):
+    n = st.ghost.get('n_getmsg', VInt(z3.IntVal(0)))
+    first = z3.is_true(z3.simplify(n.t == 0))
+    m, exp, sec = getmsg_model(ex, args, kwargs, st, node)
+    st.ghost['n_getmsg'] = VInt(n.t + 1)
+    OB(ex, st, 'sh:getMsg-expects-only-handshake/server_hello@L%d' % node.lineno,
+       exp == [ContentType.handshake] and sec == [HandshakeType.server_hello])
+    if not first:
+        # the site that waits for the ServerHello after a HelloRetryRequest (RFC 8446 4.1.4)
+        hr = st.env['hello_retry']
+        ch = st.env['clientHello']
+        hr_ver = attr('version', getext(hr, ExtensionType.supported_versions))
+        OB(ex, st, 'hrr:accepted-only-with-random==HRR-magic-and-supported_versions>1.2',
+           z3.And(attr('random', hr) == HRR_RANDOM, V_GT(hr_ver, vtup(3, 3))))
+        OB(ex, st, 'hrr:legacy_session_id-echoed(RFC8446-4.1.4)', attr('session_id', ch) == attr('session_id', hr))
+        ks = getext(hr, ExtensionType.key_share)
+        ck = getext(hr, ExtensionType.cookie)
+        OB(ex, st, 'hrr:must-change-the-ClientHello(cookie-or-key_share)', z3.Or(v_truthy(ks), v_truthy(ck)))
+        OB(ex, st, 'hrr:selected-group-was-advertised-in-supported_groups',
+           z3.Implies(v_truthy(ks), V_IN(attr('selected_group', ks),
+                                         attr('groups', getext(ch, ExtensionType.supported_groups)))))
+        OB(ex, st, 'hrr:transcript-restarted-as-message_hash(ClientHello1)||HRR', gbool(st, 'synth_done'))
+        OB(ex, st, 'hrr:second-ClientHello-sent-before-waiting', gbool(st, 'ch2_sent'))
+    else:
+        OB(ex, st, 'sh:ClientHello-hash-snapshot-taken-before-first-ServerHello', gbool(st, 'ch_hash_copied'))
+    return [Outcome('normal', st, m)]
+
+
+def _h_copy_sh(ex, recv, args, kwargs, st, fr, node):
+    r = fresh_opaque('hh_copy')
+    if 'ch_hash' not in st.ghost and z3.is_true(z3.simplify(st.ghost['n_getmsg'].t == 0)):
+        hh = st.heap.get((st.env['self'].oid, '_handshake_hash'))
+        st.ghost['ch_hash'] = r
+        gset(st, 'ch_hash_copied')
+    st.events.append(('copy', [recv], r))
+    return [Outcome('normal', st, r)]
+
+
+def _h_getPRF(ex, recv, args, kwargs, st, fr, node):
+    r = fresh_opaque('prf_params')
+    st.ghost['prf_arg'] = args[0]
+    st.ghost['prf_res'] = r
+    return [Outcome('normal', st, r)]
+
+
+def _h_digest_sh(ex, recv, args, kwargs, st, fr, node):
+    r = fresh_opaque('digest')
+    chh, prf = st.ghost.get('ch_hash'), st.ghost.get('prf_res')
+    ok = chh is not None and isinstance(recv, VOpaque) and recv.t.eq(chh.t) and prf is not None and len(args) == 1 \
+        and tv(args[0]).eq(GETITEM(prf.t, to_val(VInt(0)))) \
+        and tv(st.ghost['prf_arg']).eq(attr('cipher_suite', st.env['hello_retry']))
+    if ok:
+        st.ghost['ch1_digest'] = r
+    return [Outcome('normal', st, r)]
+
+
+def _h_Writer(ex, recv, args, kwargs, st, fr, node):
+    r = fresh_opaque('writer')
+    st.ghost['writer'] = r
+    st.ghost['writer_step'] = VInt(z3.IntVal(0))
+    return [Outcome('normal', st, r)]
+
+
+def _writer_step(st, recv, want, ok):
+    w = st.ghost.get('writer')
+    if w is None or not (isinstance(recv, VOpaque) and recv.t.eq(w.t)):
+        return False
+    cur = z3.simplify(st.ghost['writer_step'].t)
+    if ok and z3.is_int_value(cur) and cur.as_long() == want:
+        st.ghost['writer_step'] = VInt(z3.IntVal(want + 1))
+    else:
+        st.ghost['writer_step'] = VInt(z3.IntVal(-1))
+    return True
+
+
+def _h_add_sh(ex, recv, args, kwargs, st, fr, node):
+    ok = len(args) == 2 and isinstance(args[0], VInt) and args[0].concrete() == HandshakeType.message_hash \
+        and isinstance(args[1], VInt) and args[1].concrete() == 1
+    if _writer_step(st, recv, 0, ok):
+        return [Outcome('normal', st, VNone())]
+    return None
+
+
+def _h_addVarSeq_sh(ex, recv, args, kwargs, st, fr, node):
+    d = st.ghost.get('ch1_digest')
+    ok = d is not None and len(args) == 3 and tv(args[0]).eq(d.t) and isinstance(args[1], VInt) \
+        and args[1].concrete() == 1 and isinstance(args[2], VInt) and args[2].concrete() == 3
+    if _writer_step(st, recv, 1, ok):
+        return [Outcome('normal', st, VNone())]
+    return None
+
+
+def _h_HandshakeHashes(ex, recv, args, kwargs, st, fr, node):
+    r = fresh_opaque('new_HandshakeHashes')
+    st.ghost['new_hh'] = r
+    st.ghost['new_hh_updates'] = VInt(z3.IntVal(0))
+    return [Outcome('normal', st, r)]
+
+
+def _h_write_sh(ex, recv, args, kwargs, st, fr, node):
+    r = fresh_opaque('written')
+    if isinstance(recv, VOpaque) and recv.t.eq(tv(st.env.get('hello_retry', VNone()))):
+        st.ghost['hrr_bytes'] = r
+    return [Outcome('normal', st, r)]
+
+
+def _h_update_sh(ex, recv, args, kwargs, st, fr, node):
+    nh = st.ghost.get('new_hh')
+    if nh is None or not (isinstance(recv, VOpaque) and recv.t.eq(nh.t)):
+        return None
+    cur_hh = st.heap.get((st.env['self'].oid, '_handshake_hash'))
+    installed = cur_hh is not None and tv(cur_hh).eq(nh.t)
+    k = z3.simplify(st.ghost['new_hh_updates'].t)
+    w = st.ghost.get('writer')
+    step = z3.simplify(st.ghost.get('writer_step', VInt(z3.IntVal(-1))).t)
+    if z3.is_int_value(k) and k.as_long() == 0:
+        ok = installed and w is not None and tv(args[0]).eq(attr('bytes', w)) and z3.is_int_value(step) \
+            and step.as_long() == 2
+        st.ghost['new_hh_updates'] = VInt(z3.IntVal(1 if ok else -1))
+    elif z3.is_int_value(k) and k.as_long() == 1:
+        hb = st.ghost.get('hrr_bytes')
+        ok = installed and hb is not None and tv(args[0]).eq(hb.t)
+        st.ghost['new_hh_updates'] = VInt(z3.IntVal(2 if ok else -1))
+        if ok:
+            gset(st, 'synth_done')
+    else:
+        st.ghost['new_hh_updates'] = VInt(z3.IntVal(-1))
+        gset(st, 'synth_done', False)
+    return [Outcome('normal', st, VNone())]
+
+
+def _h_sendMsgs_sh(ex, recv, args, kwargs, st, fr, node):
+    gset(st, 'ch2_sent')
+    st.events.append(('_sendMsgs', list(args), None))
+    ex.havoc_call('_sendMsgs', st)
+    return [Outcome('normal', st, fresh_opaque('sendMsgs'))]
+
+
+def _h_filterForVersion(ex, recv, args, kwargs, st, fr, node):
+    r = fresh_opaque('filterForVersion')
+    st.ghost['ffv_res'] = r
+    st.ghost['ffv_src'] = args[0]
+    st.ghost['ffv_min'] = kwargs.get('minVersion', args[1] if len(args) > 1 else VNone())
+    st.ghost['ffv_max'] = kwargs.get('maxVersion', args[2] if len(args) > 2 else VNone())
+    return [Outcome('normal', st, r)]
+
+
+def _on_store_rsl(ex, obj, val, st, fr, node):
+    sh = st.env['serverHello']
+    lim = attr('record_size_limit', getext(sh, ExtensionType.record_size_limit))
+    OB(ex, st, 'sh:stored-peer-record-size-limit-is-the-range-checked-ServerHello-value',
+       z3.And(tv(val) == lim, V_LE(to_val(VInt(64)), lim), V_LE(lim, to_val(VInt(2 ** 14)))))
+
+
+def _on_store_version(ex, obj, val, st, fr, node):
+    st.ghost['version_set'] = val if isinstance(val, VOpaque) else fresh_opaque('nonopaque_version')
+
+
+SPEC_SH = M2Spec(on_store={'_peer_record_size_limit': _on_store_rsl, 'version': _on_store_version}, hooks={'_sendError': h_sendError, '_getMsg': _h_getMsg_sh, 'copy': _h_copy_sh,
+                        '_getPRFParams': _h_getPRF, 'digest': _h_digest_sh, 'Writer': _h_Writer, 'add': _h_add_sh,
+                        'addVarSeq': _h_addVarSeq_sh, 'HandshakeHashes': _h_HandshakeHashes, 'write': _h_write_sh,
+                        'update': _h_update_sh, '_sendMsgs': _h_sendMsgs_sh,
+                        'filterForVersion': _h_filterForVersion},
+                 pure={'getExtension', 'len', 'toStr'})
+
+# extension types a ServerHello may carry only in answer to the same type in the ClientHello (RFC 5246 7.4.1.4,
+# RFC 8446 4.2) and on which the client ACTS (flag set / value stored) in the <= 1.2 flow
+_ACTED_ON_EXT = [('encrypt_then_mac', ExtensionType.encrypt_then_mac),
+                 ('extended_master_secret', ExtensionType.extended_master_secret),
+                 ('record_size_limit', ExtensionType.record_size_limit),
+                 ('supported_versions', ExtensionType.supported_versions),
+                 ('alpn', ExtensionType.alpn)]
+
+
+def _check_sh(api):
+    n = api.normal_exits()
+    OB(api, api.entry, 'sh:has-normal-exit', len(n) >= 1)
+    for o in n:
+        st = o.st
+        env = st.env
+        sh, ch, settings, rv, hr = env['serverHello'], env['clientHello'], env['settings'], env['real_version'], \
+            env['hello_retry']
+        y = st.yields[-1] if st.yields else None
+        OB(api, st, 'sh:returns-the-checked-ServerHello', FALSE if y is None else tv(y) == tv(sh))
+        OB(api, st, 'sh:connection-version-set-to-negotiated',
+           FALSE if st.ghost.get('version_set') is None else tv(st.ghost['version_set']) == tv(rv))
+        minv, maxv, vers = attr('minVersion', settings), attr('maxVersion', settings), attr('versions', settings)
+        OB(api, st, 'sh:version>=settings.minVersion', z3.Not(V_LT(tv(rv), minv)))
+        OB(api, st, 'sh:version<=settings.maxVersion-or-in-settings.versions',
+           z3.Or(z3.Not(V_GT(tv(rv), maxv)), V_IN(tv(rv), vers)))
+        sv_ext = getext(sh, ExtensionType.supported_versions)
+        sv = attr('server_version', sh)
+        total = V_GE(sv, vtup(3, 3)) == z3.Not(V_LT(sv, vtup(3, 3)))       # lemma: version tuples are totally ordered
+        use_ext = z3.And(V_GE(sv, vtup(3, 3)), v_truthy(sv_ext))
+        # (the fact the caller relies on; see _h_getSH)
+        OB(api, st, 'sh:negotiated-version=supported_versions.selected-if(legacy>=1.2-and-extension)-else-legacy',
+           z3.Implies(total, z3.And(z3.Implies(use_ext, tv(rv) == attr('version', sv_ext)),
+                                    z3.Implies(z3.Not(use_ext), tv(rv) == sv))))
+        # RFC 8446 4.1.3 / 4.2.1: a ServerHello that carries supported_versions has legacy_version 1.2, and then the
+        # extension alone decides -- the caller (_handshakeClientAsyncHelper) switches to the 1.3 flow on the extension
+        OB(api, st, 'sh:supported_versions-with-legacy_version<1.2-is-rejected(RFC8446-4.1.3)',
+           z3.Not(z3.And(v_truthy(sv_ext), V_LT(sv, vtup(3, 3)))))
+        OB(api, st, 'sh:tls13-legacy_session_id-echoed',
+           z3.Implies(V_GT(tv(rv), vtup(3, 3)), attr('session_id', sh) == attr('session_id', ch)))
+        res = st.ghost.get('ffv_res')
+        if res is None:
+            OB(api, st, 'sh:suite-filter-applied', False)
+        else:
+            OB(api, st, 'sh:cipher_suite-in-filterForVersion(result)', V_IN(attr('cipher_suite', sh), res.t))
+            OB(api, st, 'sh:filterForVersion-applied-to-the-offered-list', tv(st.ghost['ffv_src']) == attr('cipher_suites', ch))
+            OB(api, st, 'sh:filterForVersion-minVersion-is-negotiated-version', tv(st.ghost['ffv_min']) == tv(rv))
+            OB(api, st, 'sh:filterForVersion-maxVersion-is-negotiated-version', tv(st.ghost['ffv_max']) == tv(rv))
+        OB(api, st, 'sh:certificate_type-was-offered', V_IN(attr('certificate_type', sh), attr('certificate_types', ch)))
+        OB(api, st, 'sh:compression_method-null', attr('compression_method', sh) == to_val(VInt(0)))
+        OB(api, st, 'sh:tack-only-if-requested-and-signatures-verified',
+           z3.Implies(v_truthy(attr('tackExt', sh)), v_truthy(attr('tack', ch))))
+        OB(api, st, 'sh:npn-only-if-offered', z3.Implies(v_truthy(attr('next_protos', sh)), v_truthy(attr('supports_npn', ch))))
+        OB(api, st, 'sh:extended_master_secret-present-when-required(RFC7627)',
+           z3.Implies(v_truthy(attr('requireExtendedMasterSecret', settings)),
+                      v_truthy(getext(sh, ExtensionType.extended_master_secret))))
+        alpn = getext(sh, ExtensionType.alpn)
+        names = attr('protocol_names', alpn)
+        c_alpn = getext(ch, ExtensionType.alpn)
+        V_LEN = z3.Function('v_len', Val, I)
+        OB(api, st, 'sh:alpn-single-protocol-that-was-offered(RFC7301-3.1)',
+           z3.Implies(v_truthy(alpn), z3.And(v_truthy(c_alpn), V_LEN(names) == 1,
+                                             V_IN(GETITEM(names, to_val(VInt(0))), attr('protocol_names', c_alpn)))))
+        hb = getext(sh, ExtensionType.heartbeat)
+        OB(api, st, 'sh:heartbeat-only-if-offered', z3.Implies(v_truthy(hb), v_truthy(attr('use_heartbeat_extension', settings))))
+        rsl = getext(sh, ExtensionType.record_size_limit)
+        lim = attr('record_size_limit', rsl)
+        OB(api, st, 'sh:record_size_limit-within-64..2^14(RFC8449-4)',
+           z3.Implies(v_truthy(rsl), z3.And(V_LE(to_val(VInt(64)), lim), V_LE(lim, to_val(VInt(2 ** 14))))))
+        # HelloRetryRequest consistency (RFC 8446 4.1.4)
+        OB(api, st, 'hrr:ServerHello-suite-equals-HRR-suite',
+           z3.Implies(T_(hr), attr('cipher_suite', hr) == attr('cipher_suite', sh)))
+        OB(api, st, 'hrr:second-ServerHello-is-not-another-HelloRetryRequest(RFC8446-4.1.4)',
+           z3.Implies(T_(hr), attr('random', sh) != HRR_RANDOM))
+        OB(api, st, 'hrr:selected_version-retained-in-ServerHello(RFC8446-4.1.4)',
+           z3.Implies(T_(hr), tv(rv) == attr('version', getext(hr, ExtensionType.supported_versions))))
+        # RFC 8446 4.2.1: supported_versions in a ServerHello selects TLS 1.3+ and an offered version
+        OB(api, st, 'sh:supported_versions-selects-an-offered-version>=1.3(RFC8446-4.2.1)',
+           z3.Implies(z3.And(V_GE(attr('server_version', sh), vtup(3, 3)), v_truthy(sv_ext)),
+                      z3.And(V_GT(attr('version', sv_ext), vtup(3, 3)), V_IN(attr('version', sv_ext), vers))))
+        # RFC 5246 7.4.1.4: extensions in the ServerHello only in response to the same extension in the ClientHello
+        for nm, et in _ACTED_ON_EXT:
+            OB(api, st, 'sh:ext-only-if-offered:%s(RFC5246-7.4.1.4)' % nm,
+               z3.Implies(v_truthy(getext(sh, et)), v_truthy(getext(ch, et))))
+
+
+task_pair('_clientGetServerHello/within-offer-and-policy', ('C03', 'C04', 'C20', 'C06'), TC + '_clientGetServerHello', SPEC_SH,
+       check=_check_sh, opts=OPTS2, setup=_setup,
+       defects=('sh:supported_versions-with-legacy_version<1.2', 'hrr:second-ServerHello-is-not-another',
+                'hrr:selected_version-retained', 'sh:supported_versions-selects-an-offered',
+                'sh:ext-only-if-offered:encrypt_then_mac', 'sh:ext-only-if-offered:extended_master_secret',
+                'sh:ext-only-if-offered:record_size_limit', 'sh:ext-only-if-offered:supported_versions'),
+       defect_props=('C03', 'C06'),
+       defect_doc='RFC 5246 7.4.1.4 / RFC 8446 4.1.3, 4.1.4, 4.2.1 checks the client omits (reproduced: unsolicited '
+                  'encrypt_then_mac / extended_master_secret / record_size_limit accepted, second HelloRetryRequest -> '
+                  'AttributeError, supported_versions not validated)',
+       doc='on the normal exit the ServerHello is inside the offer and the settings: version bounds, suite in '
+           'filterForVersion(offer, v, v), null compression, offered certificate type, extension answers, EMS policy, '
+           'record_size_limit range, HRR consistency and transcript restart')
+
+
+# =========================================================================================================
+# 3./4. _clientKeyExchange  (C06 message order by key exchange, C20 dispatch, C05 ServerKeyExchange signature)
+#
+# Independent meaning of the suites (IANA name parse, specs/iana.py); the domain is the set of <= 1.2 suites the
+# library can negotiate.  That the negotiated suite is in this domain follows from the ServerHello check
+# (suite in filterForVersion(offer)) and offer = get*Suites(settings) (contracts/suites.py, C03).
+_TABLE = iana.table(CipherSuite.ietfNames)
+_DOM = dict((i, s) for i, s in _TABLE.items() if s.kind == 'tls' and iana.negotiable(s))
+assert len(_DOM) >= 60
+
+
+def _suite_pred(pred):
+    ids = sorted(i for i, s in _DOM.items() if pred(s))
+    return lambda x: z3.Or([tv(x) == v_int(z3.IntVal(i)) for i in ids] + [FALSE])
+
+
+P_DOM = _suite_pred(lambda s: True)
+P_CERT = _suite_pred(lambda s: s.cert_expected)                       # server sends Certificate (RFC 5246 7.4.2)
+P_SKE = _suite_pred(lambda s: s.kx in ('DHE', 'ECDHE', 'SRP'))        # server sends ServerKeyExchange (7.4.3, RFC 5054 2.5)
+P_SRP = _suite_pred(lambda s: s.kx == 'SRP')
+P_ANON = _suite_pred(lambda s: s.auth == 'anon')
+P_KX = dict((k, _suite_pred(lambda s, k=k: s.kx == k)) for k in ('RSA', 'DHE', 'ECDHE', 'SRP'))
+# a CertificateRequest is legal only from a certificate-authenticated (non-anonymous) server (RFC 5246 7.4.4);
+# for SRP suites client certificates are not used (the library's own policy, same as the task statement)
+P_CR_OK = lambda x: z3.And(P_CERT(x), z3.Not(P_SRP(x)))
+
+REG.note('C06', 'assumptions',
+         'm2_client: typestate obligations quantify over the %d negotiable <=1.2 suites of specs/iana.py; that the '
+         'negotiated suite is one of them is the ServerHello check of _clientGetServerHello plus the suite-filter '
+         'contracts (contracts/suites.py)' % len(_DOM))
+
+S_SH, S_CERT, S_SKE, S_CR, S_SHD = 0, 1, 2, 3, 4
+HT = HandshakeType
+
+
+def _allowed(hs, ht, s):
+    """RFC 5246 7.3 figure 1, server flight after ServerHello, as transition guard"""
+    return z3.Or(
+        z3.And(ht == HT.certificate, hs == S_SH, P_CERT(s)),
+        z3.And(ht == HT.server_key_exchange, P_SKE(s),
+               z3.Or(z3.And(hs == S_SH, z3.Not(P_CERT(s))), z3.And(hs == S_CERT, P_CERT(s)))),
+        z3.And(ht == HT.certificate_request, P_CR_OK(s), z3.Or(z3.And(hs == S_CERT, z3.Not(P_SKE(s))), hs == S_SKE)),
+        z3.And(ht == HT.server_hello_done, z3.Or(z3.And(hs == S_CERT, z3.Not(P_SKE(s))), hs == S_SKE, hs == S_CR)))
+
+
+def _next(hs, ht):
+    return z3.If(ht == HT.certificate, S_CERT, z3.If(ht == HT.server_key_exchange, S_SKE,
+                 z3.If(ht == HT.certificate_request, S_CR, z3.If(ht == HT.server_hello_done, S_SHD, -1))))
+
+
+def _h_getMsg_kx(ex, recv, args, kwargs, st, fr, node):
+    m, exp, sec = getmsg_model(ex, args, kwargs, st, node)
+    s = st.env['cipherSuite']
+    hs = st.ghost.get('hs', VInt(z3.IntVal(S_SH))).t
+    OB(ex, st, 'kx:getMsg-expects-handshake-records-only@L%d' % node.lineno, exp == [ContentType.handshake])
+    ht = MSG_HT(m.t)
+    bad = gbool(st, 'hs_bad')
+    st.ghost['hs_bad'] = VBool(z3.Or(bad, z3.Not(_allowed(hs, ht, s))))
+    st.ghost['hs'] = VInt(_next(hs, ht))
+    for nm, h in (('certificate', HT.certificate), ('server_key_exchange', HT.server_key_exchange),
+                  ('certificate_request', HT.certificate_request)):
+        if sec == [h]:
+            st.ghost['msg_' + nm] = m
+    if sec == [HT.server_key_exchange]:
+        # constructorType of the ServerKeyExchange parser is the negotiated suite (parse dispatch, C20)
+        OB(ex, st, 'kx:ServerKeyExchange-parsed-for-the-negotiated-suite',
+           len(args) == 3 and tv(args[2]) == tv(s))
+    if sec == [HT.certificate]:
+        OB(ex, st, 'kx:Certificate-parsed-for-the-negotiated-certificate-type',
+           len(args) == 3 and tv(args[2]) == tv(st.env['certificateType']))
+    if sec == [HT.server_hello_done] and z3.is_true(z3.simplify(hs == hs)):
+        # the site reached after a CertificateRequest was accepted: library-list form of RFC 5246 7.4.4
+        def inl(lst):
+            return z3.Or([tv(s) == v_int(z3.IntVal(i)) for i in lst])
+        OB(ex, st, 'kx:CertificateRequest-accepted-only-for-cert-suites-and-never-SRP(lists)',
+           z3.And(z3.Or(inl(CipherSuite.certAllSuites), inl(CipherSuite.ecdheEcdsaSuites), inl(CipherSuite.dheDsaSuites)),
+                  z3.Not(inl(CipherSuite.srpAllSuites))))
+        OB(ex, st, 'kx:CertificateRequest-accepted-only-from-certificate-authenticated-non-SRP-server(IANA)',
+           z3.Implies(P_DOM(s), P_CR_OK(s)))
+        cr = st.ghost.get('msg_cr_or_shd')
+        OB(ex, st, 'kx:second-ServerHelloDone-wait-only-after-a-CertificateRequest',
+           FALSE if cr is None else MSG_HT(cr.t) == HT.certificate_request)
+    if sec is not None and sorted(sec) == sorted([HT.certificate_request, HT.server_hello_done]):
+        st.ghost['msg_cr_or_shd'] = m
+    return [Outcome('normal', st, m)]
+
+
+def _h_getKey_kx(ex, recv, args, kwargs, st, fr, node):
+    r = fresh_opaque('key_chain_tack')
+    st.ghost['key_res'] = r
+    st.ghost['key_cert_arg'] = args[0]
+    st.ghost['key_settings_arg'] = args[1]
+    st.events.append(('_clientGetKeyFromChain', list(args), r))
+    ex.havoc_call('_clientGetKeyFromChain', st)
+    # contract of _clientGetKeyFromChain (proved by task _clientGetKeyFromChain/result below): the returned chain
+    # is the non-empty chain of the Certificate message
+    st.assume(z3.And(GETITEM(r.t, to_val(VInt(1))) != v_none, v_truthy(GETITEM(r.t, to_val(VInt(1)))),
+                     GETITEM(r.t, to_val(VInt(1))) == attr('cert_chain', args[0])))
+    return [Outcome('normal', st, r)]
+
+
+def _h_sigHashesToList_kx(ex, recv, args, kwargs, st, fr, node):
+    r = fresh_opaque('valid_sig_algs')
+    if 'certList' in kwargs and len(args) == 1:
+        st.ghost['vsa'] = r
+        st.ghost['vsa_settings'] = args[0]
+        st.ghost['vsa_certlist'] = kwargs['certList']
+    return [Outcome('normal', st, r)]
+
+
+def _h_verifySKE(ex, recv, args, kwargs, st, fr, node):
+    """KeyExchange.verifyServerKeyExchange(serverKeyExchange, publicKey, clientRandom, serverRandom, validSigAlgs):
+    returns None when the signature verifies (and, in TLS 1.2, (hashAlg, signAlg) is in validSigAlgs), raises
+    TLSIllegalParameterException / TLSDecryptionFailed otherwise (contract of contracts/kex.py)."""
+    outs = []
+    for cls in (TLSIllegalParameterException, TLSDecryptionFailed):
+        s2 = st.fork()
+        outs.append(Outcome('raise', s2, VExc(cls, [], 'verifyServerKeyExchange line %d' % node.lineno)))
+    kr = st.ghost.get('key_res')
+    ske = st.ghost.get('msg_server_key_exchange')
+    vsa = st.ghost.get('vsa')
+    env = st.env
+    if kr is None or ske is None or vsa is None or len(args) != 5:
+        ok = FALSE
+    else:
+        ok = z3.And(tv(args[0]) == ske.t,
+                    tv(args[1]) == GETITEM(kr.t, to_val(VInt(0))),
+                    tv(args[2]) == tv(env['clientRandom']), tv(args[3]) == tv(env['serverRandom']),
+                    tv(args[4]) == vsa.t,
+                    tv(st.ghost['vsa_settings']) == tv(env['settings']),
+                    tv(st.ghost['vsa_certlist']) == GETITEM(kr.t, to_val(VInt(1))))
+    st.ghost['ske_verified'] = VBool(ok)
+    OB(ex, st, 'ske-sig:verify-call-uses(ske-received,end-entity-key-of-chain,both-randoms,sigalgs-of-settings)', ok)
+    outs.append(Outcome('normal', st, VNone()))
+    return outs
+
+
+def _h_processSKE(ex, recv, args, kwargs, st, fr, node):
+    from tlslite.errors import TLSInsufficientSecurity
+    kr = st.ghost.get('key_res')
+    s = st.env['cipherSuite']
+    pk_ok = z3.And(z3.Implies(P_CERT(s), FALSE if kr is None else tv(args[0]) == GETITEM(kr.t, to_val(VInt(0)))),
+                   z3.Implies(z3.Not(P_CERT(s)), tv(args[0]) == v_none))
+    OB(ex, st, 'kx:premaster-derived-with-end-entity-key-of-the-recorded-chain(static-RSA:encrypted-to-it)',
+       z3.Implies(P_DOM(s), pk_ok))
+    ske = st.ghost.get('msg_server_key_exchange')
+    OB(ex, st, 'kx:key-exchange-processes-the-received-ServerKeyExchange',
+       z3.Implies(P_DOM(s), z3.And(z3.Implies(P_SKE(s), FALSE if ske is None else tv(args[1]) == ske.t),
+                                   z3.Implies(z3.Not(P_SKE(s)), tv(args[1]) == v_none))))
+    OB(ex, st, 'kx:receiver-is-the-keyExchange-object-of-the-caller', tv(recv) == tv(st.env['keyExchange']))
+    outs = []
+    for cls in (TLSInsufficientSecurity, TLSIllegalParameterException):
+        outs.append(Outcome('raise', st.fork(), VExc(cls, [], 'processServerKeyExchange line %d' % node.lineno)))
+    r = fresh_opaque('premaster')
+    st.ghost['premaster'] = r
+    outs.append(Outcome('normal', st, r))
+    return outs
+
+
+def _h_sendMsg_generic(ex, recv, args, kwargs, st, fr, node):
+    st.events.append(('_sendMsg', list(args), None))
+    n = st.ghost.get('n_sent', VInt(z3.IntVal(0)))
+    st.ghost['n_sent'] = VInt(n.t + 1)
+    ex.havoc_call('_sendMsg', st)
+    return [Outcome('normal', st, fresh_opaque('sendMsg'))]
+
+
+SPEC_KX = M2Spec(hooks={'_sendError': h_sendError, '_getMsg': _h_getMsg_kx, '_clientGetKeyFromChain': _h_getKey_kx,
+                        '_sigHashesToList': _h_sigHashesToList_kx, 'verifyServerKeyExchange': _h_verifySKE,
+                        'processServerKeyExchange': _h_processSKE, '_sendMsg': _h_sendMsg_generic},
+                 pure={'getExtension', 'numBits', 'len', 'str'})
+
+
+def _check_kx(api):
+    n = api.normal_exits()
+    OB(api, api.entry, 'kx:has-normal-exit', len(n) >= 1)
+    for o in n:
+        st = o.st
+        s = st.env['cipherSuite']
+        y = st.yields[-1] if st.yields else None
+        if y is None or not isinstance(y, VTuple) or len(y.items) != 4:
+            OB(api, st, 'kx:returns-4-tuple', False)
+            continue
+        premaster, chain, ccert, tack = y.items
+        hs = st.ghost.get('hs', VInt(z3.IntVal(S_SH))).t
+        OB(api, st, 'kx:accepted-server-flight-is-a-word-of-RFC5246-fig1-for-the-suite',
+           z3.Implies(P_DOM(s), z3.And(z3.Not(gbool(st, 'hs_bad')), hs == S_SHD)))
+        kr = st.ghost.get('key_res')
+        cert_msg = st.ghost.get('msg_certificate')
+        OB(api, st, 'ske-sig:server-chain-returned-only-after-verifyServerKeyExchange-returned-normally(signed-kx)',
+           z3.Implies(z3.And(P_DOM(s), tv(chain) != v_none, P_SKE(s)), gbool(st, 'ske_verified')))
+        OB(api, st, 'ske-sig:returned-chain-is-the-checked-chain-of-the-received-Certificate',
+           z3.Implies(z3.And(P_DOM(s), tv(chain) != v_none),
+                      FALSE if kr is None or cert_msg is None else
+                      z3.And(tv(chain) == GETITEM(kr.t, to_val(VInt(1))), tv(st.ghost['key_cert_arg']) == cert_msg.t,
+                             tv(st.ghost['key_settings_arg']) == tv(st.env['settings']))))
+        OB(api, st, 'kx:chain-returned-iff-suite-has-certificate-authentication(IANA)',
+           z3.Implies(P_DOM(s), P_CERT(s) == (tv(chain) != v_none)))
+        OB(api, st, 'kx:premaster-is-the-key-exchange-result',
+           FALSE if st.ghost.get('premaster') is None else tv(premaster) == st.ghost['premaster'].t)
+        OB(api, st, 'kx:client-chain-forgotten-when-no-CertificateRequest',
+           z3.Implies(hs == S_SHD, z3.Or(tv(ccert) == v_none, gbool(st, 'hs_bad'),
+                                         FALSE if st.ghost.get('msg_cr_or_shd') is None else
+                                         MSG_HT(st.ghost['msg_cr_or_shd'].t) == HT.certificate_request)))
+
+
+task_pair('_clientKeyExchange/flight-order-and-ske-signature', ('C06', 'C20', 'C05'), TC + '_clientKeyExchange', SPEC_KX,
+       check=_check_kx, opts=OPTS2, setup=_setup,
+       doc='<=1.2 client: the accepted server flight Certificate/ServerKeyExchange/CertificateRequest/ServerHelloDone '
+           'is a word of RFC 5246 fig. 1 for the IANA meaning of the suite; CertificateRequest only from a '
+           'certificate-authenticated non-SRP server; the server chain is returned only after '
+           'verifyServerKeyExchange returned normally on the received SKE with the end-entity key of that chain')
+
+
+# =========================================================================================================
+# _clientGetKeyFromChain / _check_certchain_with_settings  (C05: key = end-entity key of the same chain; C03: peer
+# key size / curve / scheme inside the client's settings)
+V_LEN = z3.Function('v_len', Val, I)
+
+
+def _h_checkchain(ex, recv, args, kwargs, st, fr, node):
+    r = fresh_opaque('checked_public_key')
+    st.ghost['cc_res'] = r
+    st.ghost['cc_chain'] = args[0]
+    st.ghost['cc_settings'] = args[1]
+    ex.havoc_call('_check_certchain_with_settings', st)
+    return [Outcome('normal', st, r)]
+
+
+SPEC_GK = M2Spec(hooks={'_sendError': h_sendError, '_check_certchain_with_settings': _h_checkchain},
+                 pure={'getNumCerts', 'getTackExt', 'checkTack'})
+
+
+def _check_gk(api):
+    n = api.normal_exits()
+    OB(api, api.entry, 'getkey:has-normal-exit', len(n) >= 1)
+    for o in n:
+        st = o.st
+        y = st.yields[-1] if st.yields else None
+        if y is None or not isinstance(y, VTuple) or len(y.items) != 3:
+            OB(api, st, 'getkey:returns-3-tuple', False)
+            continue
+        pk, chain, tack = y.items
+        cert = st.env['certificate']
+        OB(api, st, 'getkey:returned-chain-is-the-chain-of-the-Certificate-message', tv(chain) == attr('cert_chain', cert))
+        OB(api, st, 'getkey:returned-chain-is-non-empty',
+           z3.And(v_truthy(tv(chain)), tv(chain) != v_none,
+                  z3.Function('pure_getNumCerts_1', Val, Val)(attr('getNumCerts', tv(chain))) != to_val(VInt(0))))
+        cr = st.ghost.get('cc_res')
+        OB(api, st, 'getkey:returned-key-is-the-settings-checked-end-entity-key-of-that-chain',
+           FALSE if cr is None else z3.And(tv(pk) == cr.t, tv(st.ghost['cc_chain']) == tv(chain),
+                                           tv(st.ghost['cc_settings']) == tv(st.env['settings'])))
+
+
+task_pair('_clientGetKeyFromChain/result', ('C05', 'C03'), TC + '_clientGetKeyFromChain', SPEC_GK, check=_check_gk,
+       opts=OPTS2, setup=_setup,
+       doc='returns (key, chain, tack) with chain = the non-empty chain of the Certificate message and key = the '
+           'result of _check_certchain_with_settings(chain, settings)')
+
+
+def _h_getEEPK(ex, recv, args, kwargs, st, fr, node):
+    r = fresh_opaque('end_entity_key')
+    st.ghost['eepk'] = r
+    st.ghost['eepk_of'] = recv
+    return [Outcome('normal', st, r)]
+
+
+SPEC_CC = M2Spec(hooks={'_sendError': h_sendError, 'getEndEntityPublicKey': _h_getEEPK}, pure={'len', 'items', 'format'},
+                 props_as_fields={'version'})
+
+
+def _check_cc(api):
+    n = api.normal_exits()
+    OB(api, api.entry, 'certchain:has-normal-exit', len(n) >= 1)
+    for o in n:
+        st = o.st
+        env = st.env
+        y = st.yields[-1] if st.yields else None
+        k = st.ghost.get('eepk')
+        OB(api, st, 'certchain:returns-the-end-entity-public-key-of-the-argument-chain',
+           FALSE if (y is None or k is None) else z3.And(tv(y) == k.t, tv(st.ghost['eepk_of']) == tv(env['cert_chain'])))
+        settings = env['settings']
+        ct = tv(env['cert_type'])
+        is_ = lambda name: ct == to_val(VStr(name))
+        ver = st.heap.get((env['self'].oid, 'version'))
+        other = z3.Not(z3.Or([is_(x) for x in ('ecdsa', 'Ed25519', 'Ed448', 'mldsa44', 'mldsa65', 'mldsa87')]))
+        if k is not None:
+            klen = V_LEN(k.t)
+            # C03: "peer key size ... lies inside what each side's own HandshakeSettings allow"
+            OB(api, st, 'certchain:RSA/DSA-key-size-within-[minKeySize,maxKeySize]',
+               z3.Implies(other, z3.And(z3.Not(V_LT(v_int(klen), attr('minKeySize', settings))),
+                                        z3.Not(V_GT(v_int(klen), attr('maxKeySize', settings))))))
+        for nm in ('Ed25519', 'Ed448', 'mldsa44', 'mldsa65', 'mldsa87'):
+            OB(api, st, 'certchain:%s-certificate-only-if-in-more_sig_schemes' % nm,
+               z3.Implies(is_(nm), V_IN(ct, attr('more_sig_schemes', settings))))
+        # the alias-normalised curve name is a loop-havocked local that no longer exists after the join: find it as
+        # the (unique) term tested for membership in settings.eccCurves on the way to this exit
+        ecc = attr('eccCurves', settings)
+        cands = _in_terms(st.pc, ecc)
+        OB(api, st, 'certchain:ECDSA-curve(<=1.2)-in-settings.eccCurves-after-alias-normalisation',
+           FALSE if (ver is None or len(cands) != 1 or not str(cands[0]).startswith('curve_name')) else
+           z3.Implies(z3.And(is_('ecdsa'), V_LE(tv(ver), vtup(3, 3))), V_IN(cands[0], ecc)))
+        OB(api, st, 'certchain:EdDSA-certificate-not-below-TLS1.2',
+           FALSE if ver is None else z3.Implies(z3.Or(is_('Ed25519'), is_('Ed448')), z3.Not(V_LT(tv(ver), vtup(3, 3)))))
+
+
+def _in_terms(pc, container):
+    out, seen, todo = [], set(), list(pc)
+    while todo:
+        t = todo.pop()
+        if t.get_id() in seen:
+            continue
+        seen.add(t.get_id())
+        if z3.is_app(t):
+            if t.decl().name() == 'v_in' and t.arg(1).eq(container) and not any(t.arg(0).eq(x) for x in out):
+                out.append(t.arg(0))
+            todo.extend(t.children())
+    return out
+
+
+task_pair('_check_certchain_with_settings/peer-key-inside-settings', ('C03', 'C05'), TC + '_check_certchain_with_settings',
+       SPEC_CC, check=_check_cc, opts=OPTS2, setup=_setup_fields('version'),
+       doc='returns cert_chain.getEndEntityPublicKey(); RSA/DSA size within [minKeySize, maxKeySize]; EdDSA / ML-DSA '
+           'only when enabled in more_sig_schemes; ECDSA curve (<=1.2) in settings.eccCurves')
+
+
+# =========================================================================================================
+# 6. _getFinished / _sendFinished (shared by both roles; C04 Finished over the transcript, C06 CCS/Finished order)
+L_SERVER_FIN = to_val(lift_py(b"server finished"))
+L_CLIENT_FIN = to_val(lift_py(b"client finished"))
+CT = ContentType
+
+
+def _self_field(st, name):
+    v = st.heap.get((st.env['self'].oid, name))
+    return None if v is None else tv(v)
+
+
+def _getmsg_site(fr, node):
+    """ordinal (source order) of this `_getMsg` call among the `_getMsg` calls of the function under analysis"""
+    import ast as _ast
+    lines = sorted(set(n.lineno for n in _ast.walk(fr.fs.node) if isinstance(n, _ast.Call) and
+                       isinstance(n.func, _ast.Attribute) and n.func.attr == '_getMsg'))
+    return lines.index(node.lineno)
+
+
+def _h_getMsg_fin(ex, recv, args, kwargs, st, fr, node):
+    n_before = st.ghost['hh_msgs'].t
+    k = st.ghost['n_getfin'].t
+    m, exp, sec = getmsg_model(ex, args, kwargs, st, node)
+    st.ghost['n_getfin'] = VInt(k + 1)
+    is_ccs = MSG_CT(m.t) == CT.change_cipher_spec
+    st.ghost['n_ccs'] = VInt(z3.If(is_ccs, st.ghost['n_ccs'].t + 1, st.ghost['n_ccs'].t))
+    old = st.ghost.get('ccs_msg')
+    st.ghost['ccs_msg'] = VOpaque(z3.If(is_ccs, m.t, v_none if old is None else old.t))      # last CCS received
+    site = _getmsg_site(fr, node)
+    if site == 0:
+        hs_admitted = CT.handshake in exp
+        OB(ex, st, 'fin:first-wait-is-the-first-and-admits-only-ChangeCipherSpec-or-NewSessionTicket',
+           z3.And(k == 0, z3.BoolVal(CT.change_cipher_spec in exp and set(exp) <= set([CT.handshake, CT.change_cipher_spec])
+                                     and (not hs_admitted or sec == [HT.new_session_ticket]))))
+        st.ghost['first_msg'] = m
+        is_client = _self_field(st, '_client')
+        # RFC 5077 3.3: NewSessionTicket is a message of the SERVER; a server waiting for the client's
+        # ChangeCipherSpec must not admit it (DESIGN.md F14)
+        OB(ex, st, 'fin:NewSessionTicket-admitted-only-in-the-client-role(RFC5077-3.3)',
+           FALSE if is_client is None else z3.Implies(z3.BoolVal(hs_admitted), v_truthy(is_client)))
+    elif site == 1 and exp == [CT.change_cipher_spec]:
+        f = st.ghost.get('first_msg')
+        OB(ex, st, 'fin:second-wait-admits-only-ChangeCipherSpec-and-only-after-a-NewSessionTicket',
+           FALSE if f is None else z3.And(k == 1, MSG_CT(f.t) == CT.handshake, MSG_HT(f.t) == HT.new_session_ticket))
+    elif exp == [CT.handshake] and sec == [HT.next_protocol]:
+        OB(ex, st, 'fin:NextProtocol-only-when-expected-and-after-read-state-change',
+           z3.And(gbool(st, 'read_state_changed'), T_(st.env['expect_next_protocol'])))
+    elif exp == [CT.handshake] and sec == [HT.finished]:
+        OB(ex, st, 'fin:Finished-awaited-only-after-exactly-one-ChangeCipherSpec-and-read-state-change',
+           z3.And(gbool(st, 'read_state_changed'), st.ghost['n_ccs'].t == 1))
+        ck = st.ghost.get('ck_hh')
+        OB(ex, st, 'fin:expected-verify_data-computed-on-the-transcript-BEFORE-this-Finished-is-hashed',
+           FALSE if ck is None else z3.And(ck.t == n_before, gbool(st, 'ck_done')))
+        st.ghost['fin_msg'] = m
+    else:
+        OB(ex, st, 'fin:unexpected-_getMsg-site@L%d' % node.lineno, False)
+    return [Outcome('normal', st, m)]
+
+
+def _h_Ticket(ex, recv, args, kwargs, st, fr, node):
+    is_client = _self_field(st, '_client')
+    OB(ex, st, 'fin:NewSessionTicket-stored-only-by-the-client-role(RFC5077-3.3)',
+       FALSE if is_client is None else v_truthy(is_client))
+    f = st.ghost.get('first_msg')
+    OB(ex, st, 'fin:stored-ticket-is-the-received-one-bound-to-this-master-secret-and-suite',
+       FALSE if f is None or len(args) != 4 else
+       z3.And(tv(args[0]) == attr('ticket', f.t), tv(args[1]) == attr('ticket_lifetime', f.t),
+              tv(args[2]) == tv(st.env['masterSecret']), tv(args[3]) == tv(st.env['cipherSuite'])))
+    return [Outcome('normal', st, fresh_opaque('Ticket'))]
+
+
+def _h_changeReadState(ex, recv, args, kwargs, st, fr, node):
+    ccs = st.ghost.get('ccs_msg')
+    OB(ex, st, 'fin:read-state-switched-after-exactly-one-ChangeCipherSpec(RFC5246-7.1)', st.ghost['n_ccs'].t == 1)
+    OB(ex, st, 'fin:read-state-switched-after-a-ChangeCipherSpec-record',
+       FALSE if ccs is None else MSG_CT(tv(ccs)) == CT.change_cipher_spec)
+    OB(ex, st, 'fin:read-state-switched-only-for-ChangeCipherSpec-type-1',
+       FALSE if ccs is None else attr('type', ccs) == to_val(VInt(1)))
+    OB(ex, st, 'fin:read-state-switched-once', z3.Not(gbool(st, 'read_state_changed')))
+    gset(st, 'read_state_changed')
+    ex.havoc_call('_changeReadState', st)
+    return [Outcome('normal', st, VNone())]
+
+
+def _h_calc_key_getfin(ex, recv, args, kwargs, st, fr, node):
+    r = fresh_opaque('verify_data_expected')
+    is_client = _self_field(st, '_client')
+    hh = _self_field(st, '_handshake_hash')
+    ver = _self_field(st, 'version')
+    hh_arg = kwargs.get('handshake_hashes')
+    ok = FALSE
+    if is_client is not None and len(args) == 4 and hh_arg is not None:
+        ok = z3.And(tv(args[1]) == tv(st.env['masterSecret']), tv(args[2]) == tv(st.env['cipherSuite']),
+                    z3.Implies(v_truthy(is_client), tv(args[3]) == L_SERVER_FIN),
+                    z3.Implies(z3.Not(v_truthy(is_client)), tv(args[3]) == L_CLIENT_FIN),
+                    TRUE if hh is None else tv(hh_arg) == hh,
+                    TRUE if ver is None else tv(args[0]) == ver,
+                    tv(kwargs.get('output_length', VNone())) == to_val(VInt(12)))
+    OB(ex, st, 'fin:expected-verify_data=calc_key(version,masterSecret,suite,PEER-finished-label,connection-transcript,12)', ok)
+    gset(st, 'ck_done')
+    st.ghost['ck_hh'] = VInt(st.ghost['hh_msgs'].t)
+    st.ghost['ck_res'] = r
+    return [Outcome('normal', st, r)]
+
+
+REG.note('C04', 'trusted',
+         'm2_client: calc_key(version, secret, suite, label, handshake_hashes=H, output_length) reads the digest of H '
+         'during the call (H is passed by reference, not as a copy): the value is a function of the transcript at '
+         'call time (contracts/kdf.py proves calc_key against the PRF definitions)')
+
+SPEC_GF = M2Spec(hooks={'_sendError': h_sendError, '_getMsg': _h_getMsg_fin, 'Ticket': _h_Ticket,
+                        '_changeReadState': _h_changeReadState, 'calc_key': _h_calc_key_getfin},
+                 props_as_fields={'_client', 'version'}, stable_fields={'_client'}, pure={'len'})
+
+REG.note('C06', 'trusted',
+         'm2_client: TLSRecordLayer._client is assigned only by _handshakeStart (tlsrecordlayer.py:1430), which no '
+         'callee of the Finished exchange reaches on a live handshake (it raises unless the connection is closed); '
+         'the name-based frame scan cannot see this, so the field is declared stable for _getFinished/_sendFinished')
+
+
+def _check_gf(api):
+    n = api.normal_exits()
+    OB(api, api.entry, 'fin:has-normal-exit', len(n) >= 1)
+    for o in n:
+        st = o.st
+        fin, ck = st.ghost.get('fin_msg'), st.ghost.get('ck_res')
+        OB(api, st, 'fin:normal-exit-only-if-received-verify_data-equals-expected',
+           FALSE if fin is None or ck is None else attr('verify_data', fin.t) == ck.t)
+        OB(api, st, 'fin:exactly-one-ChangeCipherSpec-consumed', st.ghost['n_ccs'].t == 1)
+        OB(api, st, 'fin:read-state-changed', gbool(st, 'read_state_changed'))
+
+
+task_pair('_getFinished/ccs-then-finished-over-transcript', ('C04', 'C06'), TC + '_getFinished', SPEC_GF, check=_check_gf,
+       opts=OPTS2, setup=_setup_fields('_client', 'version', '_handshake_hash'),
+       defects=('fin:NewSessionTicket-admitted-only-in-the-client-role', 'fin:NewSessionTicket-stored-only-by-the-client-role'),
+       defect_props=('C06',),
+       defect_doc='DESIGN F14: the shared _getFinished admits and stores a NewSessionTicket also in the server role',
+       doc='<=1.2: [NewSessionTicket] ChangeCipherSpec(type 1) -> read state switched once -> [NextProtocol] -> '
+           'Finished whose verify_data equals calc_key(master, suite, peer label, transcript before the Finished)')
+
+
+# =========================================================================================================
+# 5. _clientResume  (C13: abbreviated handshake only when the server resumed; otherwise full handshake)
+def _resume_echo(st):
+    """RFC 5246 7.3 / RFC 5077 3.4: the server resumed iff it echoes the offered, non-empty session id"""
+    session, sh = st.env['session'], st.env['serverHello']
+    return z3.And(T_(session), T_(attr('sessionID', session)), attr('session_id', sh) == attr('sessionID', session))
+
+
+def _h_calcPending_res(ex, recv, args, kwargs, st, fr, node):
+    session, sh = st.env['session'], st.env['serverHello']
+    OB(ex, st, 'resume:abbreviated-path-entered-only-if-ServerHello-echoes-the-offered-session-id(RFC5246-7.3,RFC5077-3.4)',
+       _resume_echo(st))
+    OB(ex, st, 'resume:ServerHello-suite-equals-cached-suite', attr('cipher_suite', sh) == attr('cipherSuite', session))
+    OB(ex, st, 'resume:keys-from-cached-master-secret-and-fresh-randoms',
+       z3.And(tv(args[0]) == attr('cipherSuite', session), tv(args[1]) == attr('masterSecret', session),
+              tv(args[2]) == tv(st.env['clientRandom']), tv(args[3]) == attr('random', sh)) if len(args) >= 4 else FALSE)
+    gset(st, 'pending_calculated')
+    ex.havoc_call('_calcPendingStates', st)
+    return [Outcome('normal', st, VNone())]
+
+
+def _h_getFinished_res(ex, recv, args, kwargs, st, fr, node):
+    session = st.env['session']
+    OB(ex, st, 'resume:server-Finished-awaited-first(RFC5246-fig2)-with-cached-secret',
+       z3.And(gbool(st, 'pending_calculated'), z3.Not(gbool(st, 'sent_fin')),
+              tv(args[0]) == attr('masterSecret', session), tv(args[1]) == attr('cipherSuite', session))
+       if len(args) >= 2 else FALSE)
+    # KNOWN DEFECT F4 (DESIGN.md): with a cached ticket the abbreviated path is taken unconditionally, and
+    # _getFinished admits only NewSessionTicket/ChangeCipherSpec: a server that declined the ticket (rotated key) and
+    # continues with Certificate gets unexpected_message instead of a full handshake
+    OB(ex, st, 'resume:declined-ticket-falls-back-to-full-handshake'
+               '(wait-for-server-CCS-only-after-session-id-echo)(RFC5077-3.4)', _resume_echo(st))
+    gset(st, 'got_fin')
+    ex.havoc_call('_getFinished', st)
+    return [Outcome('normal', st, fresh_opaque('getFinished'))]
+
+
+def _h_sendFinished_res(ex, recv, args, kwargs, st, fr, node):
+    session = st.env['session']
+    OB(ex, st, 'resume:client-Finished-sent-only-after-server-Finished-verified',
+       z3.And(gbool(st, 'got_fin'), tv(args[0]) == attr('masterSecret', session),
+              tv(args[1]) == attr('cipherSuite', session)) if len(args) >= 2 else FALSE)
+    gset(st, 'sent_fin')
+    ex.havoc_call('_sendFinished', st)
+    return [Outcome('normal', st, fresh_opaque('sendFinished'))]
+
+
+def _on_store_session_res(ex, obj, val, st, fr, node):
+    OB(ex, st, 'resume:connection.session-set-to-the-cached-session-only-after-both-Finished',
+       z3.And(gbool(st, 'got_fin'), gbool(st, 'sent_fin'), tv(val) == tv(st.env['session'])))
+
+
+def _on_yield_res(ex, val, st, fr, ynode):
+    if isinstance(val, VStr) and val.s == 'resumed_and_finished':
+        gset(st, 'yielded_resumed')
+        OB(ex, st, 'resume:resumed_and_finished-reported-only-after-both-Finished',
+           z3.And(gbool(st, 'got_fin'), gbool(st, 'sent_fin')))
+
+
+SPEC_RES = M2Spec(hooks={'_sendError': h_sendError, '_calcPendingStates': _h_calcPending_res,
+                         '_getFinished': _h_getFinished_res, '_sendFinished': _h_sendFinished_res},
+                  on_store={'session': _on_store_session_res}, on_yield=_on_yield_res, pure={'flush'})
+
+
+def _check_res(api):
+    n = api.normal_exits()
+    OB(api, api.entry, 'resume:has-normal-exit', len(n) >= 1)
+    for o in n:
+        st = o.st
+        OB(api, st, 'resume:reports-resumed-iff-abbreviated-handshake-done',
+           gbool(st, 'yielded_resumed') == z3.And(gbool(st, 'got_fin'), gbool(st, 'sent_fin')))
+        # not resumed: nothing consumed / sent, the caller continues with the full handshake
+        OB(api, st, 'resume:no-session-id-echo-and-no-ticket=>nothing-read-or-sent(full-handshake-continues)',
+           z3.Implies(z3.And(z3.Not(_resume_echo(st)),
+                             z3.Not(z3.And(T_(st.env['session']), T_(attr('tls_1_0_tickets', st.env['session']))))),
+                      z3.And(z3.Not(gbool(st, 'got_fin')), z3.Not(gbool(st, 'sent_fin')),
+                             z3.Not(gbool(st, 'yielded_resumed')), z3.Not(gbool(st, 'pending_calculated')))))
+        OB(api, st, 'resume:session-id-echo=>abbreviated-handshake', z3.Implies(_resume_echo(st), gbool(st, 'yielded_resumed')))
+
+
+task_pair('_clientResume/decision', ('C13', 'C06'), TC + '_clientResume', SPEC_RES, check=_check_res, opts=OPTS2,
+       setup=_setup,
+       defects=('resume:abbreviated-path-entered-only-if', 'resume:declined-ticket-falls-back'),
+       defect_props=('C13',),
+       defect_doc='DESIGN F4: with a cached <=1.2 ticket the abbreviated path is entered without any sign that the '
+                  'server resumed; a declined ticket aborts with unexpected_message instead of a full handshake',
+       doc='the abbreviated handshake (server CCS/Finished first, keys from the cached master secret, cached suite) is '
+           'entered only if the ServerHello echoes the offered non-empty session id; otherwise nothing is consumed and '
+           'the full handshake continues.  Expected refutations (F4): the `or session.tls_1_0_tickets` disjunct')
+
+
+# =========================================================================================================
+# _sendFinished (shared) and _clientFinished
+def _h_sendMsg_sf(ex, recv, args, kwargs, st, fr, node):
+    k = st.ghost['n_sent'].t
+    m = args[0]
+    st.ghost['n_sent'] = VInt(k + 1)
+    ccs = st.ghost.get('new_ccs')
+    fin = st.ghost.get('new_fin')
+    is_ccs = ccs is not None and tv(m).eq(ccs.t)
+    is_fin = fin is not None and tv(m).eq(fin.t)
+    if is_ccs:
+        OB(ex, st, 'sendfin:ChangeCipherSpec-sent-before-write-state-change-and-before-Finished',
+           z3.And(z3.Not(gbool(st, 'write_state_changed')), z3.Not(gbool(st, 'fin_sent')), z3.Not(gbool(st, 'ccs_sent'))))
+        gset(st, 'ccs_sent')
+    elif is_fin:
+        OB(ex, st, 'sendfin:Finished-sent-after-CCS-and-write-state-change(under-new-keys)',
+           z3.And(gbool(st, 'ccs_sent'), gbool(st, 'write_state_changed'), z3.Not(gbool(st, 'fin_sent'))))
+        gset(st, 'fin_sent')
+    else:
+        # NextProtocol (client, NPN): between state change and Finished, encrypted (draft-agl-tls-nextprotoneg-04)
+        OB(ex, st, 'sendfin:only-NextProtocol-between-write-state-change-and-Finished',
+           z3.And(gbool(st, 'write_state_changed'), z3.Not(gbool(st, 'fin_sent')),
+                  FALSE if st.ghost.get('new_np') is None else tv(m) == st.ghost['new_np'].t))
+        # it is hashed into the transcript before verify_data is computed
+        st.ghost['hh_msgs'] = VInt(st.ghost['hh_msgs'].t + 1)
+    ex.havoc_call('_sendMsg', st)
+    return [Outcome('normal', st, fresh_opaque('sendMsg'))]
+
+
+def _h_CCS_new(ex, recv, args, kwargs, st, fr, node):
+    r = fresh_opaque('new_ChangeCipherSpec')
+    st.ghost['new_ccs'] = r
+    return [Outcome('normal', st, r)]
+
+
+def _h_changeWriteState(ex, recv, args, kwargs, st, fr, node):
+    OB(ex, st, 'sendfin:write-state-switched-once-after-CCS-sent', z3.And(gbool(st, 'ccs_sent'),
+                                                                       z3.Not(gbool(st, 'write_state_changed'))))
+    gset(st, 'write_state_changed')
+    ex.havoc_call('_changeWriteState', st)
+    return [Outcome('normal', st, VNone())]
+
+
+def _h_calc_key_sf(ex, recv, args, kwargs, st, fr, node):
+    r = fresh_opaque('verify_data_own')
+    is_client = _self_field(st, '_client')
+    hh = _self_field(st, '_handshake_hash')
+    hh_arg = kwargs.get('handshake_hashes')
+    ok = FALSE
+    if is_client is not None and len(args) == 4 and hh_arg is not None:
+        ok = z3.And(tv(args[1]) == tv(st.env['masterSecret']), tv(args[2]) == tv(st.env['cipherSuite']),
+                    z3.Implies(v_truthy(is_client), tv(args[3]) == L_CLIENT_FIN),
+                    z3.Implies(z3.Not(v_truthy(is_client)), tv(args[3]) == L_SERVER_FIN),
+                    TRUE if hh is None else tv(hh_arg) == hh,
+                    tv(kwargs.get('output_length', VNone())) == to_val(VInt(12)))
+    OB(ex, st, 'sendfin:verify_data=calc_key(version,masterSecret,suite,OWN-finished-label,connection-transcript,12)', ok)
+    OB(ex, st, 'sendfin:verify_data-computed-before-own-Finished-is-hashed', z3.Not(gbool(st, 'fin_sent')))
+    st.ghost['own_vd'] = r
+    return [Outcome('normal', st, r)]
+
+
+def _h_create_sf(ex, recv, args, kwargs, st, fr, node):
+    # Finished(version).create(verifyData) / NextProtocol().create(nextProto)
+    r = fresh_opaque('created_msg')
+    vd = st.ghost.get('own_vd')
+    if vd is not None and len(args) == 1 and tv(args[0]).eq(vd.t):
+        st.ghost['new_fin'] = r
+    elif len(args) == 1 and tv(args[0]).eq(tv(st.env.get('nextProto', VNone()))):
+        st.ghost['new_np'] = r
+    return [Outcome('normal', st, r)]
+
+
+def _h_serverSendTickets(ex, recv, args, kwargs, st, fr, node):
+    is_client = _self_field(st, '_client')
+    OB(ex, st, 'sendfin:NewSessionTicket-sent-only-by-the-server-role-before-CCS',
+       z3.And(z3.Not(gbool(st, 'ccs_sent')), T_(st.env['send_session_ticket'])))
+    ex.havoc_call('_serverSendTickets', st)
+    return [Outcome('normal', st, fresh_opaque('tickets'))]
+
+
+SPEC_SF = M2Spec(hooks={'_sendError': h_sendError, '_sendMsg': _h_sendMsg_sf, 'ChangeCipherSpec': _h_CCS_new,
+                        '_changeWriteState': _h_changeWriteState, 'calc_key': _h_calc_key_sf, 'create': _h_create_sf,
+                        '_serverSendTickets': _h_serverSendTickets},
+                 props_as_fields={'_client', 'version'}, stable_fields={'_client'}, pure={'flush', 'min'})
+
+
+def _check_sf(api):
+    n = api.normal_exits()
+    OB(api, api.entry, 'sendfin:has-normal-exit', len(n) >= 1)
+    for o in n:
+        OB(api, o.st, 'sendfin:on-return-CCS-sent,write-state-changed,Finished-sent',
+           z3.And(gbool(o.st, 'ccs_sent'), gbool(o.st, 'write_state_changed'), gbool(o.st, 'fin_sent')))
+
+
+task_pair('_sendFinished/ccs-statechange-finished', ('C04', 'C06'), TC + '_sendFinished', SPEC_SF, check=_check_sf,
+       opts=OPTS2, setup=_setup_fields('_client', 'version', '_handshake_hash'),
+       doc='<=1.2: ChangeCipherSpec, then the write state changes, then [NextProtocol], then a Finished whose '
+           'verify_data is calc_key(master, suite, own label, transcript so far)')
+
+
+def _h_calcMS(ex, recv, args, kwargs, st, fr, node):
+    r = fresh_opaque('masterSecret')
+    env = st.env
+    OB(ex, st, 'clifin:master-secret-from(premaster,suite,clientRandom,serverRandom)',
+       z3.And(tv(args[0]) == tv(env['premasterSecret']), tv(args[1]) == tv(env['cipherSuite']),
+              tv(args[2]) == tv(env['clientRandom']), tv(args[3]) == tv(env['serverRandom'])) if len(args) == 4 else FALSE)
+    st.ghost['ms'] = r
+    return [Outcome('normal', st, r)]
+
+
+def _h_calcPending_cf(ex, recv, args, kwargs, st, fr, node):
+    env = st.env
+    ms = st.ghost.get('ms')
+    OB(ex, st, 'clifin:pending-states-from-that-master-secret-and-the-negotiated-suite',
+       FALSE if ms is None or len(args) < 4 else
+       z3.And(tv(args[0]) == tv(env['cipherSuite']), tv(args[1]) == ms.t, tv(args[2]) == tv(env['clientRandom']),
+              tv(args[3]) == tv(env['serverRandom'])))
+    gset(st, 'pending_calculated')
+    ex.havoc_call('_calcPendingStates', st)
+    return [Outcome('normal', st, VNone())]
+
+
+def _h_sendFinished_cf(ex, recv, args, kwargs, st, fr, node):
+    ms = st.ghost.get('ms')
+    OB(ex, st, 'clifin:client-Finished-first(RFC5246-fig1)-after-pending-states',
+       FALSE if ms is None else z3.And(gbool(st, 'pending_calculated'), z3.Not(gbool(st, 'got_fin')),
+                                       tv(args[0]) == ms.t, tv(args[1]) == tv(st.env['cipherSuite'])))
+    gset(st, 'sent_fin')
+    ex.havoc_call('_sendFinished', st)
+    return [Outcome('normal', st, fresh_opaque('sendFinished'))]
+
+
+def _h_getFinished_cf(ex, recv, args, kwargs, st, fr, node):
+    ms = st.ghost.get('ms')
+    OB(ex, st, 'clifin:server-Finished-checked-against-the-same-master-secret-and-suite',
+       FALSE if ms is None else z3.And(gbool(st, 'sent_fin'), tv(args[0]) == ms.t,
+                                       tv(args[1]) == tv(st.env['cipherSuite'])))
+    gset(st, 'got_fin')
+    ex.havoc_call('_getFinished', st)
+    return [Outcome('normal', st, fresh_opaque('getFinished'))]
+
+
+SPEC_CF = M2Spec(hooks={'_sendError': h_sendError, '_calculate_master_secret': _h_calcMS,
+                        '_calcPendingStates': _h_calcPending_cf, '_sendFinished': _h_sendFinished_cf,
+                        '_getFinished': _h_getFinished_cf}, pure={'flush'})
+
+
+def _check_cf(api):
+    n = api.normal_exits()
+    OB(api, api.entry, 'clifin:has-normal-exit', len(n) >= 1)
+    for o in n:
+        st = o.st
+        y = st.yields[-1] if st.yields else None
+        ms = st.ghost.get('ms')
+        OB(api, st, 'clifin:returns-the-master-secret-only-after-the-server-Finished-was-verified',
+           FALSE if y is None or ms is None else z3.And(tv(y) == ms.t, gbool(st, 'got_fin'), gbool(st, 'sent_fin')))
+
+
+task_pair('_clientFinished/order', ('C04', 'C06', 'C05'), TC + '_clientFinished', SPEC_CF, check=_check_cf, opts=OPTS2,
+       setup=_setup,
+       doc='full handshake: master secret from (premaster, suite, randoms); pending states; client CCS/Finished first, '
+           'then the server Finished is verified; the master secret is returned only afterwards')
+
+
+# =========================================================================================================
+# _handshakeClientAsyncHelper: the <=1.2 client flow as a whole (C04 downgrade sentinel, C20 key-exchange class
+# dispatch, C05 what is recorded in the Session, C06 order of the sub-flows, C13 only valid sessions are offered)
+S12 = to_val(lift_py(TLS_1_2_DOWNGRADE_SENTINEL))
+S11 = to_val(lift_py(TLS_1_1_DOWNGRADE_SENTINEL))
+V_SLICE = z3.Function('v_slice', Val, Val, Val, Val)
+(O_START, O_CH, O_SH, O_TLS13, O_RESUME, O_KX, O_FIN, O_SESSION) = range(8)
+
+
+def _order(st, frm, to, ex, name):
+    cur = st.ghost['order'].t
+    OB(ex, st, name, z3.Or([cur == f for f in frm]))
+    st.ghost['order'] = VInt(z3.IntVal(to))
+
+
+def _h_valid(ex, recv, args, kwargs, st, fr, node):
+    r = fresh_opaque('session_valid')
+    st.ghost['valid_res'] = r
+    st.ghost['valid_of'] = recv
+    return [Outcome('normal', st, r)]
+
+
+def _h_sendCH(ex, recv, args, kwargs, st, fr, node):
+    _order(st, [O_START], O_CH, ex, 'helper:ClientHello-is-the-first-step')
+    sess = args[1]
+    vr = st.ghost.get('valid_res')
+    orig = st.ghost['entry_session']
+    OB(ex, st, 'helper:cached-session-offered-only-if-session.valid()(completed,resumable,has-id)',
+       z3.Implies(T_(sess), FALSE if vr is None else z3.And(v_truthy(vr.t), tv(st.ghost['valid_of']) == orig.t,
+                                                            tv(sess) == orig.t)))
+    OB(ex, st, 'helper:offer-built-from-the-validated-settings', tv(args[0]) == tv(st.env['settings']))
+    r = fresh_opaque('clientHello')
+    st.ghost['ch'] = r
+    st.assume(v_truthy(r.t))
+    ex.havoc_call('_clientSendClientHello', st)
+    return [Outcome('normal', st, r)]
+
+
+# may be assumed in the caller only when obligation `sh:supported_versions-with-legacy_version<1.2-is-rejected` of
+# _clientGetServerHello is PROVED (it is refuted on the pinned tree: confirmed defect); M2C_ASSUME_SV_FIX=1 is for
+# checking a repaired tree
+SH_REJECTS_SV_WITH_LEGACY_LT_12 = True     # /repo fix cca360d is in the tree; the task '_clientGetServerHello/known-defects' proves it
+
+
+def _h_getSH(ex, recv, args, kwargs, st, fr, node):
+    _order(st, [O_CH], O_SH, ex, 'helper:ServerHello-awaited-after-ClientHello')
+    ch = st.ghost.get('ch')
+    OB(ex, st, 'helper:ServerHello-checked-against-the-sent-ClientHello-and-the-validated-settings',
+       FALSE if ch is None else z3.And(tv(args[2]) == ch.t, tv(args[0]) == tv(st.env['settings']),
+                                       tv(args[1]) == tv(st.env['session'])))
+    r = fresh_opaque('serverHello')
+    st.ghost['sh'] = r
+    st.assume(v_truthy(r.t))
+    ex.havoc_call('_clientGetServerHello', st)
+    # contract of _clientGetServerHello (task _clientGetServerHello/within-offer-and-policy): the connection version
+    # is the negotiated one = supported_versions.selected if legacy version >= 1.2 and the extension is present,
+    # else the legacy version
+    ver = fresh_opaque('negotiated_version')
+    st.heap[(st.env['self'].oid, 'version')] = ver
+    st.ghost['neg_version'] = ver
+    ext = getext(r, ExtensionType.supported_versions)
+    sv = attr('server_version', r)
+    use_ext = z3.And(V_GE(sv, vtup(3, 3)), v_truthy(ext))
+    st.assume(z3.And(z3.Implies(use_ext, ver.t == attr('version', ext)),
+                     z3.Implies(z3.Not(use_ext), ver.t == sv)))
+    st.assume(V_GE(sv, vtup(3, 3)) == z3.Not(V_LT(sv, vtup(3, 3))))         # total order on version tuples
+    if SH_REJECTS_SV_WITH_LEGACY_LT_12:
+        st.assume(z3.Not(z3.And(v_truthy(ext), V_LT(sv, vtup(3, 3)))))
+    return [Outcome('normal', st, r)]
+
+
+def _sentinel_ok(st):
+    """RFC 8446 4.1.3, client side"""
+    sh, ver = st.ghost.get('sh'), st.ghost.get('neg_version')
+    if sh is None or ver is None:
+        return FALSE
+    maxv = attr('maxVersion', st.env['settings'])
+    last8 = V_SLICE(attr('random', sh), v_int(z3.IntVal(0) - 8), v_none)
+    return z3.And(z3.Implies(z3.And(V_GT(maxv, vtup(3, 3)), V_LE(ver.t, vtup(3, 3))), z3.And(last8 != S12, last8 != S11)),
+                  z3.Implies(z3.And(maxv == vtup(3, 3), V_LT(ver.t, vtup(3, 3))), last8 != S11))
+
+
+def _h_tls13(ex, recv, args, kwargs, st, fr, node):
+    _order(st, [O_SH], O_TLS13, ex, 'helper:TLS1.3-flow-entered-right-after-ServerHello')
+    sh, ver = st.ghost['sh'], st.ghost['neg_version']
+    ext = getext(sh, ExtensionType.supported_versions)
+    OB(ex, st, 'helper:TLS1.3-flow-only-if-ServerHello.supported_versions>1.2', z3.And(v_truthy(ext),
+                                                                                     V_GT(attr('version', ext), vtup(3, 3))))
+    OB(ex, st, 'helper:TLS1.3-flow-only-if-the-negotiated-connection-version-is-1.3(legacy_version>=1.2,RFC8446-4.1.3)',
+       ver.t == attr('version', ext))
+    OB(ex, st, 'helper:downgrade-sentinel-checked-before-continuing(RFC8446-4.1.3)', _sentinel_ok(st))
+    r = fresh_opaque('tls13_result')
+    st.ghost['tls13_res'] = r
+    ex.havoc_call('_clientTLS13Handshake', st)
+    return [Outcome('normal', st, r)]
+
+
+def _h_selectNP(ex, recv, args, kwargs, st, fr, node):
+    sh = st.ghost['sh']
+    ext = getext(sh, ExtensionType.supported_versions)
+    OB(ex, st, 'helper:<=1.2-flow-only-if-no-supported_versions>1.2',
+       z3.Not(z3.And(v_truthy(ext), V_GT(attr('version', ext), vtup(3, 3)))))
+    OB(ex, st, 'helper:downgrade-sentinel-checked-before-<=1.2-flow(RFC8446-4.1.3)', _sentinel_ok(st))
+    return None
+
+
+def _h_resume(ex, recv, args, kwargs, st, fr, node):
+    _order(st, [O_SH], O_RESUME, ex, 'helper:resumption-decision-right-after-ServerHello')
+    sh, ch = st.ghost['sh'], st.ghost['ch']
+    OB(ex, st, 'helper:resumption-decided-on(offered-session,this-ServerHello,this-client-random)',
+       z3.And(tv(args[0]) == tv(st.env['session']), tv(args[1]) == sh.t, tv(args[2]) == attr('random', ch.t)))
+    r = fresh_opaque('resume_result')
+    st.ghost['resume_res'] = r
+    ex.havoc_call('_clientResume', st)
+    return [Outcome('normal', st, r)]
+
+
+def _mk_kx_hook(kind):
+    def h(ex, recv, args, kwargs, st, fr, node):
+        s = st.env['cipherSuite']
+        sh, ch = st.ghost['sh'], st.ghost['ch']
+        OB(ex, st, 'kxclass:%s-key-exchange-object-only-for-IANA-%s-suites' % (kind, kind), z3.Implies(P_DOM(s), P_KX[kind](s)))
+        OB(ex, st, 'kxclass:%s-object-built-for(negotiated-suite,sent-ClientHello,received-ServerHello)' % kind,
+           z3.And(tv(args[0]) == tv(s), tv(args[1]) == ch.t, tv(args[2]) == sh.t, tv(s) == attr('cipher_suite', sh.t)))
+        r = fresh_opaque('keyExchange_' + kind)
+        st.ghost['kx_obj'] = r
+        return [Outcome('normal', st, r)]
+    return h
+
+
+def _h_clientKX(ex, recv, args, kwargs, st, fr, node):
+    _order(st, [O_RESUME], O_KX, ex, 'helper:key-exchange-after-resumption-was-ruled-out')
+    sh, ch, ko = st.ghost['sh'], st.ghost['ch'], st.ghost.get('kx_obj')
+    rr = st.ghost.get('resume_res')
+    OB(ex, st, 'helper:full-handshake-only-if-_clientResume-did-not-report-resumption',
+       FALSE if rr is None else rr.t != to_val(VStr('resumed_and_finished')))
+    OB(ex, st, 'helper:_clientKeyExchange-gets(suite,cert-type,randoms)-of-the-hellos-and-the-dispatched-kx-object',
+       FALSE if ko is None or len(args) != 9 else
+       z3.And(tv(args[0]) == tv(st.env['settings']), tv(args[1]) == attr('cipher_suite', sh.t),
+              tv(args[4]) == attr('certificate_type', sh.t), tv(args[6]) == attr('random', ch.t),
+              tv(args[7]) == attr('random', sh.t), tv(args[8]) == ko.t))
+    r = fresh_opaque('kx_result')
+    st.ghost['kx_res'] = r
+    ex.havoc_call('_clientKeyExchange', st)
+    return [Outcome('normal', st, r)]
+
+
+def _h_clientFin(ex, recv, args, kwargs, st, fr, node):
+    _order(st, [O_KX], O_FIN, ex, 'helper:Finished-exchange-after-key-exchange')
+    sh, ch, kr = st.ghost['sh'], st.ghost['ch'], st.ghost.get('kx_res')
+    OB(ex, st, 'helper:_clientFinished-gets-the-premaster-of-the-key-exchange-and-the-hello-randoms',
+       FALSE if kr is None or len(args) < 4 else
+       z3.And(tv(args[0]) == GETITEM(kr.t, to_val(VInt(0))), tv(args[1]) == attr('random', ch.t),
+              tv(args[2]) == attr('random', sh.t), tv(args[3]) == attr('cipher_suite', sh.t)))
+    r = fresh_opaque('master_secret')
+    st.ghost['fin_res'] = r
+    ex.havoc_call('_clientFinished', st)
+    return [Outcome('normal', st, r)]
+
+
+def _h_session_create(ex, recv, args, kwargs, st, fr, node):
+    if 'encryptThenMAC' not in kwargs:
+        return None
+    _order(st, [O_FIN], O_SESSION, ex, 'helper:Session-created-only-after-the-Finished-exchange')
+    sh, kr, ms = st.ghost['sh'], st.ghost.get('kx_res'), st.ghost.get('fin_res')
+    if kr is None or ms is None or len(args) < 9:
+        OB(ex, st, 'helper:Session.create-after-key-exchange-and-Finished', False)
+    else:
+        OB(ex, st, 'helper:recorded-master-secret-is-the-one-the-server-Finished-was-verified-under', tv(args[0]) == ms.t)
+        OB(ex, st, 'helper:recorded-session-id-and-suite-are-the-ServerHello-values',
+           z3.And(tv(args[1]) == attr('session_id', sh.t), tv(args[2]) == attr('cipher_suite', sh.t)))
+        OB(ex, st, 'helper:recorded-server-chain-is-the-chain-returned-by-_clientKeyExchange(verified-there)',
+           tv(args[5]) == GETITEM(kr.t, to_val(VInt(1))))
+        OB(ex, st, 'helper:recorded-client-chain-is-the-one-_clientKeyExchange-sent', tv(args[4]) == GETITEM(kr.t, to_val(VInt(2))))
+        OB(ex, st, 'helper:recorded-srp-username-and-server-name-are-the-callers',
+           z3.And(tv(args[3]) == tv(st.env['srpUsername']), tv(args[8]) == tv(st.env['serverName'])))
+    r = fresh_opaque('session_create')
+    return [Outcome('normal', st, r)]
+
+
+def _h_handshakeDone(ex, recv, args, kwargs, st, fr, node):
+    cur = st.ghost['order'].t
+    resumed = kwargs.get('resumed', args[0] if args else VNone())
+    t13, rr = st.ghost.get('tls13_res'), st.ghost.get('resume_res')
+    done13 = FALSE if t13 is None else z3.And(cur == O_TLS13, z3.Or(t13.t == to_val(VStr('finished')),
+                                                                    t13.t == to_val(VStr('resumed_and_finished'))))
+    doneres = FALSE if rr is None else z3.And(cur == O_RESUME, rr.t == to_val(VStr('resumed_and_finished')))
+    donefull = cur == O_SESSION
+    OB(ex, st, 'helper:handshakeDone-only-after(TLS1.3-flow-finished|abbreviated-handshake-finished|Session-created-after-'
+               'Finished)', z3.Or(done13, doneres, donefull))
+    OB(ex, st, 'helper:handshakeDone-resumed-flag-matches-the-flow',
+       z3.And(z3.Implies(donefull, tv(resumed) == to_val(VBool(FALSE))),
+              z3.Implies(doneres, tv(resumed) == to_val(VBool(TRUE))),
+              z3.Implies(done13, T_(resumed) == (t13.t == to_val(VStr('resumed_and_finished'))) if t13 is not None else TRUE)))
+    OB(ex, st, 'helper:downgrade-sentinel-check-dominates-handshakeDone(RFC8446-4.1.3)', _sentinel_ok(st))
+    gset(st, 'done')
+    ex.havoc_call('_handshakeDone', st)
+    return [Outcome('normal', st, VNone())]
+
+
+def _setup_helper(ex, st, fr):
+    _setup(ex, st, fr)
+    st.ghost['entry_session'] = st.env['session']
+
+
+SPEC_HELPER = M2Spec(hooks={'_sendError': h_sendError, 'valid': _h_valid, '_clientSendClientHello': _h_sendCH,
+                            '_clientGetServerHello': _h_getSH, '_clientTLS13Handshake': _h_tls13,
+                            '_clientSelectNextProto': _h_selectNP, '_clientResume': _h_resume,
+                            'SRPKeyExchange': _mk_kx_hook('SRP'), 'DHE_RSAKeyExchange': _mk_kx_hook('DHE'),
+                            'ECDHE_RSAKeyExchange': _mk_kx_hook('ECDHE'), 'RSAKeyExchange': _mk_kx_hook('RSA'),
+                            '_clientKeyExchange': _h_clientKX, '_clientFinished': _h_clientFin,
+                            'create': _h_session_create, '_handshakeDone': _h_handshakeDone},
+                     props_as_fields={'version'}, pure={'getExtension', 'is_valid_hostname', 'len', 'isinstance'})
+
+
+def _check_helper(api):
+    n = api.normal_exits()
+    OB(api, api.entry, 'helper:has-normal-exits', len(n) >= 3)
+    for o in n:
+        OB(api, o.st, 'helper:returns-normally-only-after-handshakeDone', gbool(o.st, 'done'))
+
+
+task_pair('_handshakeClientAsyncHelper/flow', ('C04', 'C05', 'C06', 'C13', 'C20'), TC + '_handshakeClientAsyncHelper',
+       SPEC_HELPER, check=_check_helper, opts=OPTS2, setup=_setup_helper,
+       defects=('helper:TLS1.3-flow-only-if-the-negotiated-connection-version-is-1.3',),
+       defect_props=('C20', 'C03'),
+       defect_doc='the TLS 1.3 flow is chosen by the supported_versions extension alone while the suite was filtered for '
+                  'legacy_version when that is < 1.2 (reproduced: TLS 1.3 key schedule entered with '
+                  'TLS_RSA_WITH_AES_128_CBC_SHA -> TypeError)',
+       doc='client flow: only a valid() cached session is offered; downgrade sentinel check dominates every '
+           'completion; key-exchange class chosen according to the IANA meaning of the suite; Session.create records '
+           'the ServerHello suite/id, the master secret under which the server Finished verified and the chain '
+           '_clientKeyExchange verified; _handshakeDone only at the end of one of the three flows')
+
+
+# =========================================================================================================
+# _clientTLS13Handshake: key-share group and PSK acceptance (C03 / C13; server-auth is contracts/m2_client13.py)
+def _sh13(st):
+    sh, ch = st.env['serverHello'], st.env['clientHello']
+    return (sh, ch, getext(sh, ExtensionType.key_share), getext(sh, ExtensionType.pre_shared_key),
+            getext(ch, ExtensionType.key_share), getext(ch, ExtensionType.pre_shared_key))
+
+
+def _h_getKEX13(ex, recv, args, kwargs, st, fr, node):
+    sh, ch, sks, spsk, cks, cpsk = _sh13(st)
+    share = attr('server_share', sks)
+    cl = st.env.get('cl_kex')
+    OB(ex, st, 'ks13:key-exchange-object-is-for-the-group-of-the-server-share', tv(args[0]) == attr('group', share))
+    OB(ex, st, 'ks13:a-client-share-OFFERED-in-the-ClientHello-has-the-server-selected-group(RFC8446-4.2.8)',
+       FALSE if cl is None else z3.And(tv(cl) != v_none, attr('group', cl) == attr('group', share),
+                                       V_IN(tv(cl), attr('client_shares', cks))))
+    r = fresh_opaque('kex')
+    st.ghost['kex'] = r
+    return [Outcome('normal', st, r)]
+
+
+def _h_calc_shared13(ex, recv, args, kwargs, st, fr, node):
+    sh, ch, sks, spsk, cks, cpsk = _sh13(st)
+    cl, kex = st.env.get('cl_kex'), st.ghost.get('kex')
+    OB(ex, st, 'ks13:shared-secret-from(private-key-of-that-client-share,server-key_exchange)',
+       FALSE if cl is None or kex is None else
+       z3.And(tv(recv) == kex.t, tv(args[0]) == attr('private', cl), tv(args[1]) == attr('key_exchange', attr('server_share', sks))))
+    return [Outcome('normal', st, fresh_opaque('shared_secret'))]
+
+
+def _h_secureHMAC13(ex, recv, args, kwargs, st, fr, node):
+    if not gbool(st, 'early_secret_done').eq(TRUE) and 'early_secret_done' not in st.ghost:
+        gset(st, 'early_secret_done')
+        sh, ch, sks, spsk, cks, cpsk = _sh13(st)
+        sel = attr('selected', spsk)
+        idents = attr('identities', cpsk)
+        settings = st.env['settings']
+        OB(ex, st, 'psk13:server-selected-identity-only-if-PSKs-were-offered-and-index-in-range(RFC8446-4.2.11)',
+           z3.Implies(v_truthy(spsk), z3.And(cpsk != v_none,
+                                             z3.Not(V_GE(sel, v_int(V_LEN(idents)))), z3.Not(V_LT(sel, to_val(VInt(0)))))))
+        OB(ex, st, 'psk13:psk-only-key-exchange(no-key_share)-only-if-psk_ke-mode-was-offered(RFC8446-4.2.9)',
+           z3.Implies(z3.And(v_truthy(spsk), z3.Not(v_truthy(sks))), V_IN(to_val(VStr('psk_ke')), attr('psk_modes', settings))))
+        OB(ex, st, 'psk13:one-of(key_share,pre_shared_key)-present', z3.Or(v_truthy(sks), v_truthy(spsk)))
+        br = st.ghost.get('binder_psk')
+        psk = args[1]
+        OB(ex, st, 'psk13:resumption-PSK-derived-from(selected-identity,cached-resumption-secret,cached-tickets)',
+           z3.Implies(z3.And(v_truthy(spsk), T_(st.env.get('resuming', VBool(FALSE)))),
+                      FALSE if br is None else tv(psk) == br.t))
+    return [Outcome('normal', st, fresh_opaque('hmac'))]
+
+
+def _h_binder_psk13(ex, recv, args, kwargs, st, fr, node):
+    sh, ch, sks, spsk, cks, cpsk = _sh13(st)
+    session = st.env['session']
+    r = fresh_opaque('res_binder_psk')
+    OB(ex, st, 'psk13:binder-psk-computed-for-the-selected-offered-identity-from-the-cached-session',
+       z3.And(tv(args[0]) == GETITEM(attr('identities', cpsk), attr('selected', spsk)),
+              tv(args[1]) == attr('resumptionMasterSecret', session), tv(args[2]) == attr('tickets', session))
+       if len(args) == 3 else FALSE)
+    st.ghost['binder_psk'] = r
+    return [Outcome('normal', st, r)]
+
+
+SPEC_13X = M2Spec(hooks={'_sendError': h_sendError, '_getKEX': _h_getKEX13, 'calc_shared_key': _h_calc_shared13,
+                         'secureHMAC': _h_secureHMAC13, 'calc_res_binder_psk': _h_binder_psk13},
+                  pure={'getExtension', 'toRepr', 'getHash', 'getPadding', 'curve_name_to_hash_name', 'digest', 'copy',
+                        'isinstance', 'len', 'HKDF_expand_label', 'derive_secret', 'decode', '_getPRFParams'})
+
+
+def _check_13x(api):
+    OB(api, api.entry, 'tls13:has-normal-exit', len(api.normal_exits()) >= 1)
+
+
+task_pair('_clientTLS13Handshake/key-share-and-psk-acceptance', ('C03', 'C13'), TC + '_clientTLS13Handshake', SPEC_13X,
+       check=_check_13x, opts=dict(OPTS2, comprehension_facts=True), setup=_setup,
+       defects=('psk13:server-selected-identity-only-if', 'psk13:psk-only-key-exchange'),
+       defect_props=('C13', 'C03'),
+       defect_doc='DESIGN F11: selected PSK identity not checked against the offer (AttributeError / IndexError); '
+                  'PSK-only key exchange accepted although only psk_dhe_ke was offered',
+       doc='TLS 1.3 client: the (EC)DHE secret is computed with the private key of a share that was offered in the '
+           'ClientHello and has the group of the server share; a server-selected PSK must be one that was offered '
+           '(index in range) and PSK-only key exchange requires the psk_ke mode')
+
+
+
+# =========================================================================================================
+# bounded stand-ins / replays of the confirmed defects (specs/client_hs.py, run under /venv/bin/python)
+for _prop, _name, _fn in (
+        ('C03', 'serverhello_checks', '_clientGetServerHello'), ('C06', 'serverhello_checks', '_clientGetServerHello'),
+        ('C20', 'tls13_flow_with_legacy_version', '_handshakeClientAsyncHelper'),
+        ('C03', 'tls13_flow_with_legacy_version', '_handshakeClientAsyncHelper'),
+        ('C13', 'declined_ticket_falls_back', '_clientResume'),
+        ('C06', 'server_refuses_newsessionticket', '_getFinished'),
+        ('C13', 'tls13_psk_acceptance', '_clientTLS13Handshake'), ('C03', 'tls13_psk_acceptance', '_clientTLS13Handshake'),
+        ('C04', 'clienthello_offer', '_clientSendClientHello'), ('C13', 'clienthello_offer', '_clientSendClientHello')):
+    REG.xchecks.append({'prop': _prop, 'module': 'specs.client_hs', 'name': _name, 'function': TC + _fn})
+
+for _p in PROPS:
+    REG.note(_p, 'assumptions',
+             'm2_client: M2 abstraction -- callees not under contract return unconstrained values and are assumed to '
+             'raise nothing (hooks model the declared exceptions of verifyServerKeyExchange and '
+             'processServerKeyExchange); Fault injection (self.fault) is off; attribute reads on opaque objects are '
+             'functions of the object unless the function under analysis stored the attribute itself')
+REG.note('C05', 'assumptions',
+         'm2_client: static RSA key exchange has no ServerKeyExchange signature: possession of the certificate key is '
+         'proved by the server Finished (premaster encrypted to the end-entity key of the recorded chain: obligation '
+         'kx:premaster-derived-with-end-entity-key..., Finished check: _getFinished task); SRP_SHA (no certificate): the '
+         'password proof is the Finished under the SRP premaster')
+REG.note('C05', 'trusted',
+         'm2_client: KeyExchange.verifyServerKeyExchange returns normally only for a valid signature by publicKey over '
+         '(clientRandom, serverRandom, params) with (hashAlg, signAlg) in validSigAlgs, else raises '
+         'TLSIllegalParameterException / TLSDecryptionFailed (contracts/kex.py, C10)')
+REG.note('C04', 'trusted',
+         'm2_client: list concatenation lemma instances  x in a ==> x in a+b  are supplied to the obligation about the '
+         'renegotiation SCSV; version tuples are totally ordered (v >= w  <=>  not v < w) in the two obligations that mix '
+         'both comparisons')
+REG.note('C06', 'not_built',
+         'm2_client: RFC 5077 3.3 "NewSessionTicket only if the ServerHello carried a SessionTicket extension" is not '
+         'stated (the ServerHello is not in scope of _getFinished); the typestate of the TLS 1.3 client flight '
+         '(EncryptedExtensions..Finished) is not built here; _clientSRPKeyExchange does not exist in the pinned tree '
+         '(SRP runs through _clientKeyExchange + SRPKeyExchange)')
+REG.note('C03', 'not_built',
+         'm2_client: ALPN/NPN selection result, ec_point_formats intersection and the Session EtM/EMS flags written at '
+         'completion are not under obligation; TLS 1.3 certificate curve/sig-hash branch of '
+         '_check_certchain_with_settings is executed but carries no obligation')
+REG.note('C13', 'not_built',
+         'm2_client: TLS 1.3 ticket_age obfuscation arithmetic and binder computation (HandshakeHelpers.update_binders) '
+         'are opaque; PSK hash == suite hash check is not stated')
